@@ -35,11 +35,15 @@ PROPS = {
                                 no_interior_mutability={"src/db.rs": ["Mutex", "RwLock", "RefCell", "Cell", "OnceCell", "OnceLock", "UnsafeCell", "AtomicBool", "AtomicUsize", "AtomicU64", "unsafe", "thread_local", "lazy_static"]},
                                 what="`options.describe` is read and `descriptions` is written only inside the SENTENCE|WORD arm of eval() (syntactic scan of src/**/*.rs, comments excluded)"),
                 explanation="the only site that reads `describe` and writes `descriptions` (SENTENCE|WORD arm of eval(), lifted by R16) is proved to return a value that is a function of the lookup result alone, to push exactly (phrase, constant used) iff describe is set, and to leave options / db / source unchanged; the frame (no other site) is a syntactic scan; Db::lookup is assumed to be a function of (db, phrase); recursion through eval() is bounded-checked"),
+    "C19": dict(units=["CLIPRINT", "COMPOUND", "RAT"], standin=True, level="proof",
+                cli_loop_scan=dict(cid="cli.loop_shape", file="src/bin/any.rs",
+                                   what="main() runs `for value in anything::query(&parsed, ..) { match value { Ok(value) => {ARM} Err(e) => {.. term::emit(&mut out, &config, &files, &diagnostic)?; } } }` with no break / return / continue / panic in the loop, and `opts.exact` is the parsed flag (token-wise scan)"),
+                explanation="the `Ok(value)` arm of the result loop of main() (lifted by R16, its write!/writeln! calls turned into calls on a writer shim by R17) is proved to emit exactly printed(value, exact): numerator [/ denominator iff it is not one] in exact mode, else the decimal rendering with limit 12 / exponent limit 12 / continuation mark; one space iff the unit has a positive power (Compound::has_numerator proved, R15); the unit with pluralisation iff value != 1; end of line.  The loop around the arm is pinned by a token-wise shape scan.  The characters the Display impls produce, argument parsing, Db::open and codespan are outside (assumed) and covered by the bounded stand-in that runs the real binary"),
 }
 
 COMMON_TRUST = [
     "Verus 0.2026.09.13 + bundled Z3, rustc 1.98.1; single-file mode (no linking): every dependency type is a shim with assumed contracts",
-    "extraction rules of DESIGN.md §4: R1 attributes/doc comments stripped, visibility widened; R2 debug_assert -> static obligation; R3 break-value lowering; R4 `&a op &b` -> operator call; R5 for-desugaring; R6 outlining of iterator-adapter / fn-pointer expressions into assumed fns; R7 closure lifting; R8 nested fn hoisting; R9 trait-impl methods emitted as inherent methods / associated types spelled out; R10 type ascription; R11 fn renamed to dodge a Verus name clash; R12 match-arm guard / expression arm spelled as a block; R13 `mut` by-value parameter as an explicit local; R14 contract (ensures) written on a closure; R16 the block of a match arm of eval() lifted to a named fn over its free variables (NUMBER, PERCENTAGE arms; eval() as a whole is outside Verus); R15 `iter.all(closure)` replaced by the body of the default method Iterator::all with the closure body at its single call (bases_match)",
+    "extraction rules of DESIGN.md §4: R1 attributes/doc comments stripped, visibility widened; R2 debug_assert -> static obligation; R3 break-value lowering; R4 `&a op &b` -> operator call; R5 for-desugaring; R6 outlining of iterator-adapter / fn-pointer expressions into assumed fns; R7 closure lifting; R8 nested fn hoisting; R9 trait-impl methods emitted as inherent methods / associated types spelled out; R10 type ascription; R11 fn renamed to dodge a Verus name clash; R12 match-arm guard / expression arm spelled as a block; R13 `mut` by-value parameter as an explicit local; R14 contract (ensures) written on a closure; R16 the block of a match arm of eval() lifted to a named fn over its free variables (NUMBER, PERCENTAGE arms; eval() as a whole is outside Verus); R15 `iter.all(closure)` / `values().any(closure)` replaced by the body of the default method Iterator::all / ::any with the closure body at its single call (bases_match, has_numerator); R17 `write!(w, FMT, a..)` / `writeln!` spelled as a method call `w.put<k>(FMT, newline, a..)` on a writer shim that logs the piece (lifted `Ok(value)` arm of main())",
     "BigRational viewed as `real`, BigInt as `int` (every operation used is closed on Q); i32/u32/usize arithmetic keeps its overflow obligations (discharged under the stated bounds, never treated as mathematical)",
 ]
 
@@ -53,6 +57,7 @@ SHIM_TRUST = {
     "shims/peekable_bytes.rs": "std Peekable<Bytes>: peek/next yield the remaining bytes in order (assume_specification); R6 outline of `number.bytes().peekable()` yields the UTF-8 bytes of the str; str_bytes is uninterpreted",
     "shims/syntree_node.rs": "syntree Node/Children as a sequence of UNode {kind, span, int, units, units_ok}; R6 outlines: str::parse::<i32> on a node's text (int), the text of a WORD node, &str -> Box<str>; UnitParser (4-line wrapper over the logos-generated generated::unit::parse) assumed to yield the node's (prefix, unit) pairs in order; Result::transpose",
     "shims/query_shim.rs": "Query::source(span) returns the query text between the span's offsets (str slicing; assumed)",
+    "shims/cli_out.rs": "the output stream of src/bin/any.rs as a log of pieces (format string, what each argument shows, newline): write!/writeln! become put<k> calls (R17); the characters produced by the Display impls of BigInt (num-bigint), rational::Display (C08) and compound::Display (unit names, pluralisation, exponents) are NOT modelled; a failed write leaves the log unspecified and the arm returns the error",
     "shims/syntree_span.rs": "syntree::Span<u32> as plain data; LookupError / ParseIntError / syntree::Error opaque",
 }
 
